@@ -948,6 +948,17 @@ func main() {
 	}
 	run.Set("alias_spelling_evaluations", aliasEvals)
 
+	// angle sweep: every parametric gate alone at 54 angles over four turns, every placement, n=1..3
+	wideEvals := 0
+	for n := 1; n <= 3; n++ {
+		st := &stage{n: n, L: 1, alpha: wideAngleAlphabet(n), name: "wide angles"}
+		before := evals.Load()
+		runStage(st, true)
+		wideEvals += int(evals.Load() - before)
+	}
+	run.Set("wide_angle_evaluations", wideEvals)
+	run.Set("wide_angles", "k*pi/6 for k in -24..24, 7.5, -7.5, 9.424778, 40, -100")
+
 	if !capped.Load() {
 		frontendCrosscheck()
 	}
